@@ -102,6 +102,21 @@ def check(run):
                     run.violation("contrast ratio lands on the wrong side of a WCAG threshold", [list(a), list(b)], got=v, threshold=thr,
                                   exact=str(wcag_ref.ratio(a, b))[:20])
         run.extra["threshold_verdicts_checked_against_exact_reference"] = judged
+        # the same verdicts against the *proved* reference: Cm.certVerdict (certVerdict_sound : sound over the reals)
+        cl, ck = [], []
+        for i in list(range(idx0 + len(rnd), idx0 + len(rnd) + len(near))) + list(range(idx0, idx0 + 5000)):
+            a, b = allp[i]
+            for thr, (nn, dd) in ((3.0, (3, 1)), (4.5, (9, 2)), (7.0, (7, 1))):
+                cl.append("cert %d %d %d %d %d %d %d %d" % (tuple(a) + tuple(b) + (nn, dd)))
+                ck.append((a, b, thr, vals[i]))
+        undecided = 0
+        for (a, b, thr, v), o in zip(ck, run_lines(cl, chunks=8)):
+            if o == "none":
+                undecided += 1
+            elif (o == "true") != (v >= thr):
+                run.violation("contrast ratio lands on the wrong side of a WCAG threshold (certified verdict)", [list(a), list(b)], got=v, threshold=thr, certified=o)
+        run.extra["certified_verdicts_checked"] = len(cl)
+        run.extra["certified_verdicts_undecided"] = undecided
         for (a, b), v in zip(allp, vals):
             if v == 21.0 and {tuple(a), tuple(b)} != {(0, 0, 0), (255, 255, 255)}:
                 run.violation("ratio 21 for a pair other than black/white", [list(a), list(b)], got=v)
